@@ -24,6 +24,8 @@ FLAGSETS['asanrec'] = dict(cxx='g++', cflags=_COMMON + ['-O1', '-fsanitize=addre
 
 # E3: compiled with ThreadSanitizer instrumentation but linked against the TSan-ABI implementation of engine/sched/xsched.cpp (NOT libtsan)
 FLAGSETS['tsanabi'] = dict(cxx='g++', cflags=_COMMON + ['-O1', '-fsanitize=thread', '-fno-access-control'], ldflags=['-no-pie'], env={})
+# the real ThreadSanitizer (free-running cross-check pass of the E3 harness bodies)
+FLAGSETS['tsan'] = dict(cxx='g++', cflags=_COMMON + ['-O1', '-fsanitize=thread', '-fno-access-control', '-DXS_FREE_RUNNING'], ldflags=['-fsanitize=thread'], env={})
 FLAGSETS['rt'] = dict(cxx='g++', cflags=['-std=c++17', '-O2', '-g', '-fno-omit-frame-pointer', '-w'], ldflags=[], env={})
 
 CHECKS = {}
@@ -217,14 +219,16 @@ CHECKS['C16'] = dict(title='Every delivered log message is rendered exactly as i
 
 _SCHED = dict(engine='xsched', flags='tsanabi', level='model_checking', extra_sources=[dict(src='engine/sched/xsched.cpp', flags='rt')], extra_ldflags=['-ldl'], hang_s=120,
     technique='stateless model checking of the real threads: cooperative scheduler over compiler-reported accesses (own TSan-ABI runtime), all schedules up to a preemption bound by depth-first re-execution in fresh processes, vector-clock data-race detection on every explored schedule')
-CHECKS['C20'] = dict(_SCHED, title='Concurrency helpers keep their contract under every schedule', harness=['harness/c20_helpers.cpp'], lib=False, deadline={'quick': 240, 'thorough': 2400},
+CHECKS['C20'] = dict(_SCHED, title='Concurrency helpers keep their contract under every schedule', harness=['harness/c20_helpers.cpp'], lib=False,
+    also_build=[dict(name='free', build_id='C20free', harness=['harness/c20_helpers.cpp'], flags='tsan', lib=False)], deadline={'quick': 240, 'thorough': 2400},
     level_text='5 scenarios (2 and 3 threads racing for the first Singleton access, one thread accessing twice; ManagedThread sampled by its creator and by a third thread): every schedule with <= 2-3 (quick) / 3-5 (thorough) preemptions is executed on the real code in a fresh process; per schedule: constructed once, same object, active while provably running, inactive after join, no data race, no deadlock',
     level_note='scheduling points = every synchronisation operation + every access to a static-storage location shared by two threads (learned, reported); sequentially consistent scheduler: behaviours that need weaker orderings than data-race freedom + SC are outside; libstdc++/libc internals are trusted',
     rule='schedule = sequence of choices at scheduling points (DFS with preemption bound, CHESS style); states = executions (complete schedules), transitions = scheduling points passed, traces = executions of the real code; non-trivial = executions with a context switch at a shared location',
     bound={'quick': 'preemption bound 2 (singleton scenarios, observer) / 3 (managed)', 'thorough': 'preemption bound 4/3/3 (singleton) and 5/3 (managed)'},
     assumptions=['sequentially consistent interleaving semantics; acquire/release atomics treated as SC (one atomic flag: per-location coherence decides)', 'the ManagedThread object lives in static storage so that its flag is a candidate scheduling point'])
 
-CHECKS['C09'] = dict(_SCHED, title='Independent handlers can be used concurrently', harness=['harness/c09_concurrent.cpp'], lib=True, deadline={'quick': 280, 'thorough': 2400},
+CHECKS['C09'] = dict(_SCHED, title='Independent handlers can be used concurrently', harness=['harness/c09_concurrent.cpp'], lib=True,
+    also_build=[dict(name='free', build_id='C09free', harness=['harness/c09_concurrent.cpp'], flags='tsan', lib=True)], deadline={'quick': 280, 'thorough': 2400},
     level_text='5 handler bodies (list destinations with different separators, checks, argument and handler constraints, key-value destination with usage output, all standard arguments via flags, a rejected line), each first run alone in a fresh process; 10 pairs and two triples explored over every schedule with <= 2-3 (quick) / 2-4 (thorough) preemptions on the real code: per schedule every thread must observe its solo outcome and no data race may occur on static storage or heap of the executable',
     level_note='scheduling points = synchronisation operations (mutex, function-local static guards, thread create/join) + accesses to static-storage locations shared by two threads with a writer (learned per scenario, reported); code inside libstdc++/boost/libc shared objects is not instrumented (trusted); sequentially consistent scheduler',
     rule='scenario (set of bodies) x schedule (DFS over choices at scheduling points, preemption bound); states = executions (complete schedules), transitions = scheduling points passed, traces = executions of the real code; non-trivial = executions with a context switch at a shared location',
